@@ -106,6 +106,11 @@ def parse_vtt(doc):
             if cur:
                 blocks.append(cur)
                 cur = []
+        elif "-->" in ln and (len(cur) >= 2 or (len(cur) == 1 and "-->" in cur[0])):
+            # WebVTT "collect a block": an arrow on the third or a later line (or on the line after a timing
+            # line) ends the current block; the line is re-processed as the start of a new block
+            blocks.append(cur)
+            cur = [ln]
         else:
             cur.append(ln)
     if cur:
